@@ -451,7 +451,7 @@ def run_design(ctx, module, cfg, expect_actions=(), heap='6g', timeout=3000, cov
 
 def produce_traces(ctx, binary, progs, runs, label='t'):
     """progs: list of (name, bodies); runs: list of (prog_index, nw, seed, strat). Returns list of dict."""
-    pdir = os.path.join(ctx.work, 'progs'); os.makedirs(pdir, exist_ok=True)
+    pdir = os.path.join(ctx.work, 'progs_' + label); os.makedirs(pdir, exist_ok=True)
     tdir = os.path.join(ctx.work, 'traces'); os.makedirs(tdir, exist_ok=True)
     ppaths = []
     for i, (name, bodies) in enumerate(progs):
@@ -463,7 +463,7 @@ def produce_traces(ctx, binary, progs, runs, label='t'):
         k, (pi, nw, seed, strat) = t
         out = os.path.join(tdir, '%s_%d.ndjson' % (label, k))
         rc, o = run_harness(binary, ppaths[pi], out, nw, seed, strat)
-        return {'k': k, 'prog': ppaths[pi], 'nw': nw, 'seed': seed, 'strat': strat, 'trace': out, 'rc': rc,
+        return {'k': k, 'prog': ppaths[pi], 'nw': nw, 'seed': seed, 'strat': strat, 'trace': out, 'rc': rc, 'binary': binary,
                 'stderr': o[-400:]}
 
     with cf.ThreadPoolExecutor(max_workers=NCPU) as ex:
@@ -498,11 +498,11 @@ def count_actions(ctx, traces):
 
 
 def replay_cmdline(r):
-    return 'VRT_NW=%d VRT_SEED=%d VRT_STRAT=%s VRT_OUT=trace.ndjson build/mythprog %s' % (r['nw'], r['seed'], r['strat'], r['prog'])
+    return 'VRT_NW=%d VRT_SEED=%d VRT_STRAT=%s VRT_OUT=trace.ndjson %s %s' % (r['nw'], r['seed'], r['strat'], r.get('binary', 'build/mythprog'), r['prog'])
 
 
-def traced_check(ctx, binary, progs, runs, invariants, module='MythTrace', known=None, classify=None):
-    res = produce_traces(ctx, binary, progs, runs)
+def traced_check(ctx, binary, progs, runs, invariants, module='MythTrace', known=None, classify=None, label='t'):
+    res = produce_traces(ctx, binary, progs, runs, label=label)
     res = check_runs(ctx, res, binary)
     byt = {r['trace']: r for r in res}
     traces = [r['trace'] for r in res if os.path.exists(r['trace'])]
@@ -510,7 +510,7 @@ def traced_check(ctx, binary, progs, runs, invariants, module='MythTrace', known
     ctx.cov['schedules'] += len(runs)
     ctx.cov['programs'] += len(progs)
     ctx.log('C->S validating %d traces (%d events)' % (len(traces), ctx.cov['trace_events']))
-    nok, fails, states = validate_traces(module, traces, invariants, os.path.join(ctx.work, 'tv'))
+    nok, fails, states = validate_traces(module, traces, invariants, os.path.join(ctx.work, 'tv_' + label))
     ctx.cov['traces_validated_against_impl'] += nok
     ctx.cov['trace_states'] = ctx.cov.get('trace_states', 0) + states
     failed_traces = set(f['trace'] for f in fails)
@@ -658,9 +658,13 @@ def check_C01(ctx):
                         'bounded design model (2 workers, <=3 records); traces are samples of schedules']
 
 
-def std_check(ctx, designs, gen, nprogs, per_prog, binds, nws=None, cov=None, thorough_designs=()):
+def std_check(ctx, designs, gen, nprogs, per_prog, binds, nws=None, cov=None, thorough_designs=(), small_queue=False):
     lib = build_lib()
     binary = build_harness(lib, 'mythprog', ['mythprog.c'])
+    if small_queue:
+        # the same library with a 16-entry run queue, so that the re-centring paths of push / put are exercised
+        libq = build_lib('libq16', '-DINITIAL_QUEUE_SIZE=16')
+        binq = build_harness(libq, 'mythprog_q16', ['mythprog.c'])
     if cov:
         run_design(ctx, cov[0], cov[1], coverage=True, expect_actions=cov[2])
     for m, c in designs:
@@ -673,6 +677,11 @@ def std_check(ctx, designs, gen, nprogs, per_prog, binds, nws=None, cov=None, th
     mult = 1 if ctx.quick else 10
     progs, runs = core_runs(ctx, nprogs * mult, per_prog, gen, nws)
     res, fails = traced_check(ctx, binary, progs, runs, CORE_INV)
+    if small_queue:
+        ctx.seed += 1000
+        progs2, runs2 = core_runs(ctx, max(nprogs * mult // 2, 4), per_prog, gen, nws)
+        ctx.seed -= 1000
+        traced_check(ctx, binq, progs2, runs2, CORE_INV, label='q')
     g = first_good(res, fails)
     if g and binds:
         bind_selftest(ctx, g, CORE_INV, binds)
@@ -693,15 +702,20 @@ def ev(name, **kw):
     return pred
 
 
+def gen_queue_prog(rng):
+    """many runnable threads, every yield option, optionally the work-stealing API with a declining decision callback"""
+    bodies = gen_core_prog(rng, maxb=12, flagset=(0, 0, F_PF), reap=('JN',), yields=(0, 1, 2, 3, 4))
+    init = [(4, 0, rng.choice((1, 2)))] if rng.random() < 0.4 else []
+    return {'init': init, 'bodies': bodies}
+
+
 def check_C02(ctx):
-    std_check(ctx, [('MC_Core', 'MC_Core_small.cfg')],
-              lambda rng: gen_core_prog(rng, maxb=12, flagset=(0, 0, F_PF), reap=('JN',), yields=(0, 1, 2, 3, 4)),
-              30, 6,
+    std_check(ctx, [('MC_Core', 'MC_Core_small.cfg')], gen_queue_prog, 30, 6,
               [('qtake_wrong_thread', mut_first(lambda e: e['e'] == 'QTake' and e['a'][1] > 0, set_arg(1, lambda v: v + 1))),
                ('qpop_duplicate', mut_first(lambda e: e['e'] == 'QPop' and e['a'][1] > 0, lambda evs, i: evs[:i + 1] + [evs[i]] + evs[i + 1:])),
                ('drop_qpush', mut_first(ev('QPush'), drop_at)),
                ('schedrun_other', mut_first(ev('SchedRun'), set_arg(0, lambda v: v + 1)))],
-              cov=('MC_Core', 'MC_Core_cov.cfg', CORE_ACTIONS))
+              cov=('MC_Core', 'MC_Core_cov.cfg', CORE_ACTIONS), small_queue=True)
 
 
 def check_C04(ctx):
@@ -744,7 +758,7 @@ def check_C08(ctx):
     std_check(ctx, [('MC_Sync', 'MC_Sync_uncond.cfg')], gen_uncond_prog, 30, 6,
               [('drop_publish', mut_first(ev('UcPub'), drop_at)),
                ('resume_without_signal', mut_first(lambda e: e['e'] == 'U_UcSignalCall', drop_at)),
-               ('push_before_clear', mut_first(ev('UcClr'), swap_with_next))])
+               ('push_before_clear', mut_first(ev('UcClr'), swap_with_next))], small_queue=True)
 
 
 def check_C09(ctx):
@@ -1108,10 +1122,11 @@ def gen_cond_prog(rng):
         def split(total, k):
             cuts = sorted(rng.randint(0, total) for _ in range(k - 1))
             return [b_ - a_ for a_, b_ in zip([0] + cuts, cuts + [total])]
+        outside = rng.choice((0, 0, 1))      # 1: "unlock, then signal"
         for cnt in split(items, np_):
-            bodies.append([(OP['CSIG'], b, bc, 0)] * cnt)
+            bodies.append([(OP['CSIG'], b, bc, outside)] * cnt)
         for cnt in split(items, nc):
-            bodies.append([(OP['CWAIT'], b, bc, 0)] * cnt)
+            bodies.append([(OP['CWAIT'], b, bc, outside)] * cnt)
     rng.shuffle(bodies)
     return {'init': init, 'bodies': _spawn_join(rng, bodies)}
 
@@ -1144,7 +1159,7 @@ def gen_jc_prog(rng):
 
 
 def gen_uncond_prog(rng):
-    k = rng.randint(1, 6)
+    k = rng.choice((1, 2, 3, 4, 6, 12, 20))
     prod = [(OP['UCSIG'], 0, 10 + i, 0) for i in range(k)]
     cons = [(OP['UCWAIT'], 0, 0, 0) for _ in range(k)]
     for ops in (prod, cons):
